@@ -26,7 +26,7 @@ CONFIG = {
              'half of (b) the owner makes the straggler\'s very call before forking, so late calls REPEAT observations the '
              'same instance already recorded (a memo of recorded observations must not bypass the fence); evaluations = late calls + schedules judged; '
              'distinct_nontrivial = distinct (owner kind, method, outcome, recorded?) x switch sequences'),
-    'gates': ['base_exception_late_calls', 'primed_straggler_runs', 'complex_stragglers', 'complex_straggler_after_close', 'late_calls', 'root_late_calls', 'straggler_schedules', 'straggler_ok_recorded',
+    'gates': ['focused_lock_pairs', 'base_exception_late_calls', 'primed_straggler_runs', 'complex_stragglers', 'complex_straggler_after_close', 'late_calls', 'root_late_calls', 'straggler_schedules', 'straggler_ok_recorded',
               'straggler_rejected', 'straggler_single_layers', 'next_build_probes'],
 }
 
@@ -210,7 +210,15 @@ def straggler_program(owner, method):
         # repeats an observation this builder instance has already executed and recorded
         owner = owner[:-2]
     funcs = {}
-    if owner == 'sb':
+    if owner == 'sb-bare':
+        # the owner never uses its builder itself: the straggler's call is the first operation ever made
+        # on that instance (whatever the instance creates lazily is created under the race)
+        funcs['S'] = {'kind': 'sb', 'idx': 1, 'body': [fork]}
+        root = [['sb', 'S', {'catch': True}], ['q', 'is_file', 'in0', 'M']]
+    elif owner == 'bf-bare':
+        funcs['F'] = {'kind': 'bf', 'idx': 1, 'body': [['write', ''], fork]}
+        root = [['bf', 'o/x', 'F', {'catch': True}], ['q', 'is_file', 'in0', 'M']]
+    elif owner == 'sb':
         funcs['S'] = {'kind': 'sb', 'idx': 1, 'body': [['q', 'exists', 'in0', 'M'], fork]}
         root = [['sb', 'S', {'catch': True}], ['q', 'is_file', 'in0', 'M']]
     elif owner == 'bf':
@@ -260,6 +268,7 @@ def run_straggler(sh, rng, owner, method, strategy_list, free=False):
                 hooks = {}
                 if not free:
                     s = sched.Scheduler(strategy)
+                    run_straggler.last_sched = s
                     hooks = {'fork': s.fork, 'fs_yield': s.fs_yield, 'event_clock': True,
                              'after_api': lambda rctx, sr, s=s: s.join_all()}
                 else:
@@ -281,6 +290,11 @@ def run_straggler(sh, rng, owner, method, strategy_list, free=False):
                         continue
                     if s.deadlock:
                         sh.violation('deadlock|straggler|%s|%s' % (owner, method), {'info': s.deadlock_info}, case)
+                        continue
+                    if getattr(s, 'double_lock', None):
+                        # the lock that fences the builder exists twice: the fence excludes nobody
+                        sh.violation('lock_created_twice_for_one_object|%s' % s.double_lock['class'],
+                                     dict(s.double_lock, owner=owner, method=method), case)
                         continue
                 tag = '%s|%s%s' % (owner, method, '|repeats-own-call' if prime else '')
                 bad = False
@@ -349,7 +363,7 @@ def run_straggler(sh, rng, owner, method, strategy_list, free=False):
                 else:
                     sh.nt((owner, method, prime, out[0]))
                 # rule 3/4: is the observation part of the record?
-                if owner in ('sb', 'bf') and not prime and (free or rng.random() < 0.5):
+                if owner in ('sb', 'bf', 'sb-bare', 'bf-bare') and not prime and (free or rng.random() < 0.5):
                     if target == 'probe':
                         w.ext_delete('probe')
                     else:
@@ -359,7 +373,7 @@ def run_straggler(sh, rng, owner, method, strategy_list, free=False):
                                                                          getattr(rctx, 'free_threads', [])])})
                     sh.count('next_build_probes')
                     inv = [f for (_t, _k, f) in sr2.rctx.log]
-                    owner_fn = 'S' if owner == 'sb' else 'F'
+                    owner_fn = 'S' if owner.startswith('sb') else 'F'
                     if recorded_expected and owner_fn not in inv:
                         sh.violation('completed_observation_missing_from_record|' + tag,
                                      {'straggler': st, 'invoked_next': inv}, case_of(w, program))
@@ -383,6 +397,7 @@ def run_shard(sh):
         run_base_exception_cases(sh)
     combos = [(o, m) for o in ('sb', 'bf', 'sb-raises', 'root') for m in QUERY_METHODS] + \
         [(o + '+p', m) for o in ('sb', 'bf', 'sb-raises', 'root') for m in QUERY_METHODS] + \
+        [(o, m) for o in ('sb-bare', 'bf-bare') for m in QUERY_METHODS] + \
         [(o, m) for o in ('root-raises', 'root-commits', 'sb', 'bf') for m in ('build_file', 'subbuild', 'is_file')] * 2
     rng.shuffle(combos)
     i = 0
@@ -404,6 +419,25 @@ def run_shard(sh):
         for _ in range(30 if sh.tier == 'quick' else 600):
             k1, k2 = sorted(rng.sample(range(1, n + 2), 2))
             pairs.append({'kind': 'preempt', 'at': {k1: 0, k2: 0}})
+        # focused pairs: hand the baton to the straggler shortly after it was forked (k1) and take it back
+        # at one of ITS first schedule points (k1 + j): the straggler is suspended in the middle of its
+        # first operation on the builder while the owner returns
+        # focused pairs: hand the baton to the straggler shortly after it was forked (k1) and take it back
+        # at one of ITS synchronisation operations (lock creation / acquire / release, learned from a probe
+        # run with the single pre-emption k1): the straggler is suspended in the middle of its call while
+        # the owner returns and closes
+        f0 = getattr(measure, 'fork_step', 0)
+        k1s = list(range(f0 + 1, min(n, f0 + 45)))
+        if sh.tier == 'quick':
+            k1s = rng.sample(k1s, min(len(k1s), 5))
+        for k1 in k1s:
+            if run_straggler(sh, rng, owner, method, [{'kind': 'preempt', 'at': {k1: 0}}]) is None:
+                break
+            ls = getattr(run_straggler, 'last_sched', None)
+            lock_steps = [st for (st, idx, _kind) in getattr(ls, 'lock_trace', []) if idx not in (0, None) and st > k1][:8]
+            for st in lock_steps:
+                pairs.append({'kind': 'preempt', 'at': {k1: 0, st: 0}})
+                sh.count('focused_lock_pairs')
         rnd = [{'kind': rng.choice(['random', 'pct']), 'p': rng.choice([0.05, 0.2]), 'd': rng.randint(1, 3),
                 'n': n, 'seed': rng.randrange(10 ** 9)} for _ in range(15 if sh.tier == 'quick' else 300)]
         run_straggler(sh, rng, owner, method, pairs + rnd)
@@ -422,4 +456,5 @@ def measure(owner, method):
         s = sched.Scheduler({'kind': 'none'})
         w.build(program, program['roots'][0], {}, label=0,
                 hooks={'fork': s.fork, 'fs_yield': s.fs_yield, 'after_api': lambda rctx, sr: s.join_all()})
+        measure.fork_step = (getattr(s, 'fork_steps', None) or [0])[0]
         return s.step
